@@ -338,6 +338,18 @@ pub fn call_op(fe: &mut Frontend, op: &str, cls: &str, v: u64, rng: &mut Rng) ->
             lent_ok = false;
         }
     }
+    // a descriptor the library closed although it was only lent must not be closed a second time by our own File
+    // (the Rust runtime aborts the process on a double close): the observation is `lent_ok`, not a crash of the harness
+    for f in lent {
+        if fd_id(f.as_raw_fd()) == "closed" {
+            std::mem::forget(f);
+        }
+    }
+    for e in lent_ev {
+        if fd_id(e.as_raw_fd()) == "closed" {
+            std::mem::forget(e);
+        }
+    }
     CallOut {
         res,
         ret,
